@@ -34,7 +34,7 @@ const STRAIGHT_A64: &str = include_str!("../corpus/aarch64_straight.txt");
 
 /// straight-line units harvested from falcon's own lifter tests (hex, in the byte
 /// order of `arch`): more instruction variety than the assembler forms
-fn straight_units(arch: Arch) -> Vec<String> {
+pub fn straight_units(arch: Arch) -> Vec<String> {
     let text = match arch {
         Arch::X86 => STRAIGHT_X86,
         Arch::Amd64 => STRAIGHT_AMD64,
@@ -993,7 +993,15 @@ pub fn execute(case: &Case) -> Outcome {
     }
     for ((ha, ta), guards) in groups {
         // tails that lift to no IL instruction cannot be located by address
-        let tail_has_il = count_by_addr.contains_key(&ta);
+        // ... and so can tails whose own graph starts with an empty block (rep-prefixed
+        // string instructions: the rep head block carries no instruction)
+        let tail_entry_carries_address = cache
+            .get(&ta)
+            .and_then(|x| x.as_ref())
+            .and_then(|lift| lift.graphs.first())
+            .and_then(|g| g.entry.and_then(|e| g.blocks.get(&e)).and_then(|b| b.first()).and_then(|i| i.address))
+            == Some(ta);
+        let tail_has_il = count_by_addr.contains_key(&ta) && tail_entry_carries_address;
         if !tail_has_il {
             c.inc("structure.manual-edge-unjudged");
             continue;
